@@ -118,13 +118,17 @@ def run(ctx):
     # values that end up in the range text: follow plain assignments of f-strings to the `range(` template
     fstrs = {}
     for a_ in ast.walk(vl.node):
-        if isinstance(a_, ast.Assign) and isinstance(a_.targets[0], ast.Name) and isinstance(a_.value, (ast.JoinedStr, ast.IfExp)):
+        if isinstance(a_, ast.Assign) and isinstance(a_.targets[0], ast.Name) and isinstance(a_.value, (ast.JoinedStr, ast.IfExp, ast.Constant)):
             fstrs.setdefault(a_.targets[0].id, []).append(a_.value)
 
     def render(js, depth=0):
         """alternatives of the text produced by a JoinedStr / conditional of JoinedStrs; placeholders become identifiers"""
         if isinstance(js, ast.IfExp):
             return [(t, ('gen-time', ast.unparse(js.test))) for t, _ in render(js.body, depth) + render(js.orelse, depth)]
+        if isinstance(js, ast.Constant) and isinstance(js.value, str):
+            return [(js.value, None)]
+        if not isinstance(js, ast.JoinedStr):
+            raise AnalysisError(f'PyCodegen.visit_Loop: piece of the emitted range text `{ast.unparse(js)[:60]}` is not a string template')
         outs = [('', None)]
         for v in js.values:
             if isinstance(v, ast.Constant):
